@@ -55,7 +55,8 @@ ASSUMPTIONS = [
     "at least one ground-truth frame has a predicted LabeledFrame (otherwise Evaluator raises 'Empty Frame Pairs' by design: nothing is evaluated)",
     "a mean over ZERO matched pairs (mOKS, mPCK, mean distance) and a visibility ratio with an empty denominator have no subject: NaN is accepted there and only there",
     "OKS defaults (stddev 0.025, bbox-area scale, match threshold 0), default VOC thresholds 0.5:0.05:0.95 x recall 0:0.01:1, PCK thresholds 1..10 plus one non-uniform vector",
-    "quick: <=2 animals, full single-frame alphabet, two-frame cases with a reduced first frame; thorough: 3 animals (reduced NaN/extra alphabet), +1.5 px edit, 'one node undetected' visibility mode, full two-frame product",
+    "quick: <=2 animals, full single-frame alphabet (2-node skeleton: one main-score order), two-frame cases with a reduced first frame (3 nodes, NaN patterns {none, animal 0 node 0}, one main-score order) x 6 second-frame options; thorough: 3 animals (at most one instance with a missing node, extras top/bottom), +1.5 px edit and duplicate, 'one node undetected' visibility mode, full two-frame product for 2 and 3 nodes",
+    "known findings K3 (greedy duplicate steals a gt instance) and K5 (gt frames without a predicted LabeledFrame are not evaluated) are recognised by signature predicates that also require the observed recalls to equal those of the documented greedy VOC procedure; any other recall increase on deletion is a VIOLATION",
 ]
 MIN_OUTCOMES = 50
 
@@ -617,7 +618,6 @@ def run(ctx):
         if a != b:
             raise RuntimeError("first execution is not reproducible")
         items = core.rotate(items, ctx.seed)
-        # small shards: a Part keeps at most 200 violating cases for triage
         core.pmap(ctx, work, core.shard_list(items, max(16, len(items) // 100)))
     finally:
         drop_env(_ENV)
